@@ -5,6 +5,8 @@ CONSTANTS
   Wait = TRUE
   StopWakes = TRUE
   JoinAll = TRUE
+  Faults = FALSE
+  RunFinally = TRUE
 SPECIFICATION LiveSpec
 INVARIANT InOrderOnce
 INVARIANT Complete
